@@ -18,7 +18,7 @@ RULE = ("seeded random expression trees (depth <= 5) over the documented grammar
         "(d/dt * x and x' notations); all must equal the independent AST evaluation (float64, cross-checked with 40-digit mpmath; "
         "ill-conditioned trees discarded); non-trivial = tree has >= 4 nodes; distinct = distinct tree hash")
 DECIDING = ['eval_node_values', 'generated_function_values', 'spellings_compared', 'index_expressions', 'ddt_notation', 'prime_notation',
-            'hostile_names']
+            'hostile_names', 'rewritten_variable_values']
 ASSUMPTIONS = ['sigmoid is the logistic function, maxi/mini are element-wise maximum/minimum', 'argument domains are kept safe by construction',
                'ill-conditioned expressions (float64 vs mpmath differ by more than 1e-11 relative) are discarded']
 CASE_TIMEOUT = 240
@@ -110,6 +110,27 @@ def gen_expr(rnd, names, depth, flags):
     return ('call', f, a, b)
 
 
+class _SympyTooSlow(Exception):
+    pass
+
+
+def _bounded_sympify(text, seconds=4):
+    """sympy.sympify under an interval timer: pathological expressions (assumption queries on nested tan/tanh) can take
+    minutes; such expressions are rejected by the generator (PyRates itself would spend the same time parsing them)."""
+    import signal
+    import sympy
+
+    def _raise(signum, frame):
+        raise _SympyTooSlow()
+    old = signal.signal(signal.SIGALRM, _raise)
+    signal.setitimer(signal.ITIMER_REAL, seconds)
+    try:
+        return sympy.sympify(text)
+    finally:
+        signal.setitimer(signal.ITIMER_REAL, 0)
+        signal.signal(signal.SIGALRM, old)
+
+
 def literal_after_simplify(e):
     """a call whose argument loses all variables under sympy's automatic simplification (x - x, 0*x): PyRates sees a
     call on a literal (same open finding as a syntactic literal call)"""
@@ -121,8 +142,10 @@ def literal_after_simplify(e):
         for a in e[2:]:
             if E.variables(a):
                 try:
-                    if not sympy.sympify(E.to_str(a).replace('^', '**')).free_symbols:
+                    if not _bounded_sympify(E.to_str(a).replace('^', '**')).free_symbols:
                         return True
+                except _SympyTooSlow:
+                    raise
                 except Exception:
                     pass
         return any(literal_after_simplify(a) for a in e[2:])
@@ -135,7 +158,9 @@ def nesting_after_simplify(e):
     """f(f(..)) that only appears after sympy's automatic simplification (e.g. mini(v - v + mini(a, b), c))"""
     import sympy
     try:
-        ex = sympy.sympify(E.to_str(e).replace('^', '**'))
+        ex = _bounded_sympify(E.to_str(e).replace('^', '**'))
+    except _SympyTooSlow:
+        raise
     except Exception:
         return False
     for node in sympy.preorder_traversal(ex):
@@ -194,6 +219,25 @@ def generated_path(expr_str, values, notation):
     return float(np.asarray(f(0, np.array(args[1], dtype=float), *args[2:])).ravel()[0])
 
 
+def generated_path_multi(expr_str, values, notation, uname):
+    """same as generated_path, but variable `uname` is an operator input that two other operators of the node drive
+    (each delivers half of its value), so that PyRates rewrites the variable inside the equation string"""
+    from pyrates import OperatorTemplate, NodeTemplate, CircuitTemplate
+    lhs = "d/dt * zz_state" if notation == 'ddt' else "zz_state'"
+    variables = {'zz_state': 'output(0.0)'}
+    for k, v in values.items():
+        variables[k] = float(v) if k != uname else 'input(0.0)'
+    srcs = []
+    for tag in ('a', 'b'):
+        srcs.append(OperatorTemplate(name=f'src_{tag}', equations=[f"{uname} = zzc{tag} * zzv{tag}", f"zzv{tag}' = -zzv{tag}"],
+                                     variables={uname: 'output(0.0)', f'zzv{tag}': 'variable(0.5)', f'zzc{tag}': float(values[uname])}))
+    op = OperatorTemplate(name='expr_op', equations=[f"{lhs} = {expr_str}"], variables=variables)
+    c = CircuitTemplate(name='c', nodes={'n': NodeTemplate(name='nt', operators=srcs + [op])})
+    f, args, names, smap = c.get_run_func('vf', step_size=1e-3, vectorize=False, verbose=False, clear=True, float_precision='float64')
+    dy = np.asarray(f(0, np.array(args[1], dtype=float), *args[2:])).ravel()
+    return float(dy[smap['n/expr_op/zz_state']])
+
+
 def run_case(case, ctx):
     rnd = random.Random(case['cseed'])
     mp = ctx['mp']
@@ -210,8 +254,12 @@ def run_case(case, ctx):
                 flags.pop('nested', None)
                 flags.pop('literal_call', None)
                 e = gen_expr(rnd, names, rnd.randint(2, 5), flags)
-                nest = E.has_direct_nesting(e) or nesting_after_simplify(e)
-                litc = E.has_literal_call(e) or literal_after_simplify(e)
+                try:
+                    nest = E.has_direct_nesting(e) or nesting_after_simplify(e)
+                    litc = E.has_literal_call(e) or literal_after_simplify(e)
+                except _SympyTooSlow:
+                    mech['expressions_rejected_sympy_too_slow'] = mech.get('expressions_rejected_sympy_too_slow', 0) + 1
+                    continue
                 if (want == 'direct_nested_same_function') != nest:
                     continue
                 if (want == 'call_on_literal') != litc:
@@ -249,6 +297,21 @@ def run_case(case, ctx):
                 mech['ddt_notation' if notation == 'ddt' else 'prime_notation'] = mech.get('ddt_notation' if notation == 'ddt' else 'prime_notation', 0) + 1
                 if not abs(got2 - vmp) <= tol:
                     raise observe.Mismatch(f"generated function gives {got2!r} for {s!r} ({notation} notation), its arithmetic value is {vmp!r} "
+                                           f"(values {values}; canonical spelling {sp[0]!r})")
+            # the same arithmetic when PyRates has to rewrite one of the variables (multiply driven operator input)
+            if not want and rnd.random() < 0.5:
+                uname = rnd.choice(sorted(E.variables(e)))
+                si = rnd.randrange(len(sp))
+                notation = rnd.choice(['ddt', 'prime'])
+                try:
+                    got3 = generated_path_multi(sp[si], values, notation, uname)
+                except Exception as ex:
+                    raise observe.Mismatch(f"loud: generated-code path with multiply driven input {uname} raised {type(ex).__name__}: {ex} "
+                                           f"for spelling {si} {sp[si]!r} (values {values})")
+                mech['rewritten_variable_values'] = mech.get('rewritten_variable_values', 0) + 1
+                if not abs(got3 - vmp) <= tol:
+                    raise observe.Mismatch(f"generated function gives {got3!r} for {sp[si]!r} when variable {uname} is an input driven by two "
+                                           f"operators (each delivering half of {values[uname]!r}); its arithmetic value is {vmp!r} "
                                            f"(values {values}; canonical spelling {sp[0]!r})")
             mech['spellings_compared'] = mech.get('spellings_compared', 0) + 1
             if len(samples) < 2:
